@@ -282,7 +282,7 @@ func (e *Emitter) body(t *Term) string {
 			}
 		}
 		return e.nary(opNames[t.op], a)
-	case OpBVAdd, OpBVSub, OpBVMul, OpBVSDiv, OpBVSRem, OpBVNeg,
+	case OpBVAdd, OpBVSub, OpBVMul, OpBVSDiv, OpBVSRem, OpBVNeg, OpBVAnd, OpBVOr, OpBVXor, OpBVShl, OpBVAshr, OpBVLshr,
 		OpIntAdd, OpIntSub, OpIntLt, OpIntLe, OpSubstr, OpIndexOf, OpStrLen:
 		return e.nary(opNames[t.op], a)
 	case OpConcat:
